@@ -411,11 +411,16 @@ fn build_clone_for_enum(
         });
     }
     let wheres = wcb.build(|ty| quote!(#ty : #trait_));
+    let this = if variants.is_empty() {
+        quote!(*self)
+    } else {
+        quote!(self)
+    };
     Ok(quote! {
         #[automatically_derived]
         impl #impl_g #trait_ for #this_ty #wheres {
             fn clone(&self) -> Self {
-                match self {
+                match #this {
                     #(#arms_clone,)*
                 }
             }
@@ -548,11 +553,16 @@ fn build_debug_for_enum(
         arms.push(quote!(#pat => #expr));
     }
     let wheres = wcb.build(|ty| quote!(#ty : #trait_));
+    let this = if variants.is_empty() {
+        quote!(*self)
+    } else {
+        quote!(self)
+    };
     Ok(quote! {
         #[automatically_derived]
         impl #impl_g #trait_ for #this_ty #wheres {
             fn fmt(&self, f: &mut ::core::fmt::Formatter) -> ::core::fmt::Result {
-                match self {
+                match #this {
                     #(#arms,)*
                 }
             }
